@@ -66,26 +66,275 @@ pub fn md5_compress_stub(state: &mut [u32; 4], blocks: &[[u8; 64]]) {
 }
 
 // ---------------------------------------------------------------------------------------------
-// probes
+// C03 — digest verification succeeds exactly when all recorded digests match
 // ---------------------------------------------------------------------------------------------
 
-#[kani::proof]
-#[kani::unwind(70)]
-#[kani::stub(sha2::sha256::compress256, sha256_compress_stub)]
-fn p_sha256_stub_concrete() {
-    let d = sha2::Sha256::digest(b"abc");
-    let e = sha2::Sha256::digest(b"abd");
-    assert!(d.as_slice()[..] != e.as_slice()[..]);
+fn ascii_string<const N: usize>() -> (String, [u8; N]) {
+    let b: [u8; N] = kani::any();
+    let mut v = Vec::with_capacity(N);
+    let mut i = 0;
+    while i < N {
+        kani::assume(b[i] >= 0x20 && b[i] < 0x7f);
+        v.push(b[i]);
+        i += 1;
+    }
+    (unsafe { String::from_utf8_unchecked(v) }, b)
 }
+
+fn hex_eq(digest: &[u8], text: &[u8]) -> bool {
+    // text == lower-case hex of digest, without going through the hex crate (independent oracle)
+    if text.len() != 2 * digest.len() {
+        return false;
+    }
+    const HEX: &[u8; 16] = b"0123456789abcdef";
+    let mut i = 0;
+    while i < digest.len() {
+        if text[2 * i] != HEX[(digest[i] >> 4) as usize] || text[2 * i + 1] != HEX[(digest[i] & 15) as usize] {
+            return false;
+        }
+        i += 1;
+    }
+    true
+}
+
+/// MASK: 1 = MD5 (header+payload), 2 = SHA1 (header), 4 = SHA256 (header), 8 = payload digest + algorithm.
+/// Recorded values are symbolic; header and payload bytes are what `write` produces for this package.
+fn c03_digests<const MASK: u8>() {
+    let md5_rec: [u8; 16] = kani::any();
+    let (sha1_rec, sha1_b) = ascii_string::<40>();
+    let (sha256_rec, sha256_b) = ascii_string::<64>();
+    let (pd_rec, pd_b) = ascii_string::<64>();
+    let algo: u32 = kani::any();
+
+    // signature header (entries only; verify_digests reads the decoded data of the entries)
+    let mut sig_entries = Vec::new();
+    if MASK & 1 != 0 {
+        sig_entries.push(IndexEntry::new(IndexSignatureTag::RPMSIGTAG_MD5, 0, IndexData::Bin(md5_rec.to_vec())));
+    }
+    if MASK & 2 != 0 {
+        sig_entries.push(IndexEntry::new(IndexSignatureTag::RPMSIGTAG_SHA1, 0, IndexData::StringTag(sha1_rec)));
+    }
+    if MASK & 4 != 0 {
+        sig_entries.push(IndexEntry::new(IndexSignatureTag::RPMSIGTAG_SHA256, 0, IndexData::StringTag(sha256_rec)));
+    }
+    let nsig = sig_entries.len() as u32;
+    let sig = Header { index_header: IndexHeader::new(nsig, 0), index_entries: sig_entries, store: Vec::new() };
+
+    // main header: payload digest (string array, 1 item) at offset 0, algorithm (int32) at offset 68; store consistent
+    let mut entries = Vec::new();
+    let mut store = Vec::new();
+    if MASK & 8 != 0 {
+        entries.push(IndexEntry::new(IndexTag::RPMTAG_PAYLOADDIGEST, 0, IndexData::StringArray(vec![pd_rec])));
+        entries.push(IndexEntry::new(IndexTag::RPMTAG_PAYLOADDIGESTALGO, 68, IndexData::Int32(vec![algo])));
+        let mut i = 0;
+        while i < 64 {
+            store.push(pd_b[i]);
+            i += 1;
+        }
+        store.extend_from_slice(&[0, 0, 0, 0]);
+        store.extend_from_slice(&algo.to_be_bytes());
+    } else {
+        entries.push(IndexEntry::new(IndexTag::RPMTAG_NAME, 0, IndexData::StringTag(String::from("x"))));
+        store.extend_from_slice(&[b'x', 0]);
+    }
+    let n = entries.len() as u32;
+    let sl = store.len() as u32;
+    let hdr = Header { index_header: IndexHeader::new(n, sl), index_entries: entries, store };
+    let content = vec![0xde_u8, 0xad, 0x42];
+    let pkg = Package { metadata: PackageMetadata { lead: Lead::new("x"), signature: sig, header: hdr }, content };
+
+    // oracle: recompute over the byte ranges the property names
+    let mut hb = Vec::new();
+    let w = pkg.metadata.header.write(&mut hb);
+    assert!(w.is_ok());
+    let md5_ok = MASK & 1 == 0 || {
+        let mut h = md5::Md5::new();
+        h.update(&hb);
+        h.update(&pkg.content);
+        let d = h.finalize();
+        let mut same = true;
+        let mut i = 0;
+        while i < 16 {
+            same &= d[i] == md5_rec[i];
+            i += 1;
+        }
+        same
+    };
+    let sha1_ok = MASK & 2 == 0 || hex_eq(sha1::Sha1::digest(&hb).as_slice(), &sha1_b);
+    let sha256_ok = MASK & 4 == 0 || hex_eq(sha2::Sha256::digest(&hb).as_slice(), &sha256_b);
+    let pd_ok = MASK & 8 == 0 || hex_eq(sha2::Sha256::digest(&pkg.content).as_slice(), &pd_b);
+
+    let r = pkg.verify_digests();
+
+    let sig_ok = md5_ok && sha1_ok && sha256_ok;
+    if !sig_ok {
+        assert!(matches!(r, Err(Error::DigestMismatchError)), "a wrong header digest must give DigestMismatchError");
+    } else if MASK & 8 == 0 {
+        assert!(r.is_ok(), "all recorded digests match: success");
+    } else if algo != 8 {
+        assert!(r.is_err(), "unsupported payload digest algorithm must be an error");
+    } else if pd_ok {
+        assert!(r.is_ok(), "all recorded digests match: success");
+    } else {
+        assert!(matches!(r, Err(Error::DigestMismatchError)), "a wrong payload digest must give DigestMismatchError");
+    }
+    kani::cover!(r.is_ok(), "verification succeeds");
+    kani::cover!(r.is_err(), "verification fails");
+    std::mem::forget(r);
+    std::mem::forget(w);
+    std::mem::forget(pkg);
+}
+
+macro_rules! c03h {
+    ($name:ident, $mask:expr) => {
+        #[kani::proof]
+        #[kani::unwind(130)]
+        #[kani::stub(alloc::fmt::format, fmt_stub)]
+        #[kani::stub(sha2::sha256::compress256, sha256_compress_stub)]
+        #[kani::stub(sha1::compress::compress, sha1_compress_stub)]
+        #[kani::stub(md5::compress::compress, md5_compress_stub)]
+        fn $name() {
+            c03_digests::<$mask>()
+        }
+    };
+}
+c03h!(c03_digests_m00, 0);
+c03h!(c03_digests_m01, 1);
+c03h!(c03_digests_m02, 2);
+c03h!(c03_digests_m03, 3);
+c03h!(c03_digests_m04, 4);
+c03h!(c03_digests_m05, 5);
+c03h!(c03_digests_m06, 6);
+c03h!(c03_digests_m07, 7);
+c03h!(c03_digests_m08, 8);
+c03h!(c03_digests_m09, 9);
+c03h!(c03_digests_m10, 10);
+c03h!(c03_digests_m11, 11);
+c03h!(c03_digests_m12, 12);
+c03h!(c03_digests_m13, 13);
+c03h!(c03_digests_m14, 14);
+c03h!(c03_digests_m15, 15);
+
+#[kani::proof]
+#[kani::unwind(130)]
+#[kani::stub(alloc::fmt::format, fmt_stub)]
+#[kani::stub(sha2::sha256::compress256, sha256_compress_stub)]
+fn c03_twin() {
+    let (sha256_rec, _b) = ascii_string::<64>();
+    let sig = Header {
+        index_header: IndexHeader::new(1, 0),
+        index_entries: vec![IndexEntry::new(IndexSignatureTag::RPMSIGTAG_SHA256, 0, IndexData::StringTag(sha256_rec))],
+        store: Vec::new(),
+    };
+    let hdr: Header<IndexTag> = Header { index_header: IndexHeader::new(0, 0), index_entries: Vec::new(), store: Vec::new() };
+    let pkg = Package { metadata: PackageMetadata { lead: Lead::new("x"), signature: sig, header: hdr }, content: Vec::new() };
+    let r = pkg.verify_digests();
+    let ok = r.is_ok();
+    std::mem::forget(r);
+    std::mem::forget(pkg);
+    assert!(!ok, "twin: must be reported FAILED");
+}
+
+/// C04: payload digest present with ZERO items / unknown algorithm id: error, never a panic.
+fn c04_payload_digest<const ITEMS: usize>() {
+    let algo: u32 = kani::any();
+    let mut entries = Vec::new();
+    let items: Vec<String> = if ITEMS == 0 { Vec::new() } else { vec![String::from("00")] };
+    entries.push(IndexEntry::new(IndexTag::RPMTAG_PAYLOADDIGEST, 0, IndexData::StringArray(items)));
+    entries.push(IndexEntry::new(IndexTag::RPMTAG_PAYLOADDIGESTALGO, 4, IndexData::Int32(vec![algo])));
+    let hdr = Header { index_header: IndexHeader::new(2, 0), index_entries: entries, store: Vec::new() };
+    let sig: Header<IndexSignatureTag> = Header { index_header: IndexHeader::new(0, 0), index_entries: Vec::new(), store: Vec::new() };
+    let pkg = Package { metadata: PackageMetadata { lead: Lead::new("x"), signature: sig, header: hdr }, content: vec![1u8, 2, 3] };
+    let r = pkg.verify_digests();
+    assert!(r.is_err(), "a payload digest that cannot match must not verify");
+    kani::cover!(algo == 8, "sha256 algorithm id");
+    kani::cover!(algo == 7, "unassigned algorithm id");
+    std::mem::forget(r);
+    std::mem::forget(pkg);
+}
+#[kani::proof]
+#[kani::unwind(130)]
+#[kani::stub(alloc::fmt::format, fmt_stub)]
+#[kani::stub(sha2::sha256::compress256, sha256_compress_stub)]
+fn c04_payload_digest_0() {
+    c04_payload_digest::<0>()
+}
+#[kani::proof]
+#[kani::unwind(130)]
+#[kani::stub(alloc::fmt::format, fmt_stub)]
+#[kani::stub(sha2::sha256::compress256, sha256_compress_stub)]
+fn c04_payload_digest_1() {
+    c04_payload_digest::<1>()
+}
+
+// ---------------------------------------------------------------------------------------------
+// C08 — the hashing writer: digest == SHA-256 of the bytes the inner sink actually received
+// ---------------------------------------------------------------------------------------------
+
+fn c08_writer<const L: usize, const K: usize>() {
+    let data: [u8; L] = kani::any();
+    let mut sink = KSink::<L, K>::new(0, 0); // short writes only: no failure, no Interrupted
+    sink.use_default_write_all = true;       // irrelevant here (Sha256Writer calls `write`), kept explicit
+    let digest = {
+        let mut w = Sha256Writer::new(&mut sink);
+        let r = w.write_all(&data); // std's write_all over Sha256Writer::write
+        assert!(r.is_ok());
+        std::mem::forget(r);
+        let d = w.into_digest();
+        let mut out = [0u8; 32];
+        out.copy_from_slice(d.as_ref());
+        out
+    };
+    assert!(sink.len == L, "write_all delivered every byte to the inner sink");
+    assert!(eq_prefix(&sink.buf, &data, L), "inner sink received the data unchanged");
+    let expect = sha2::Sha256::digest(&sink.buf[..sink.len]);
+    let got: &[u8] = digest.as_ref();
+    assert!(got.len() == 32);
+    let mut same = true;
+    let mut i = 0;
+    while i < 32 {
+        same &= got[i] == expect[i];
+        i += 1;
+    }
+    assert!(same, "recorded digest equals SHA-256 of the bytes written through");
+    kani::cover!(sink.short_seen || K == 0 || L <= K, "short writes happened");
+}
+
+macro_rules! c08h {
+    ($name:ident, $l:expr, $k:expr) => {
+        #[kani::proof]
+        #[kani::unwind(70)]
+        #[kani::stub(sha2::sha256::compress256, sha256_compress_stub)]
+        fn $name() {
+            c08_writer::<$l, $k>()
+        }
+    };
+}
+c08h!(c08_writer_l1_k1, 1, 1);
+c08h!(c08_writer_l2_k1, 2, 1);
+c08h!(c08_writer_l3_k1, 3, 1);
+c08h!(c08_writer_l3_k2, 3, 2);
+c08h!(c08_writer_l4_k3, 4, 3);
+c08h!(c08_writer_l4_k0, 4, 0);
 
 #[kani::proof]
 #[kani::unwind(70)]
 #[kani::stub(sha2::sha256::compress256, sha256_compress_stub)]
-fn p_sha256_stub_sym() {
-    let a: [u8; 3] = kani::any();
-    let b: [u8; 3] = kani::any();
-    let d = sha2::Sha256::digest(&a);
-    let e = sha2::Sha256::digest(&b);
-    let same = d.as_slice()[..] == e.as_slice()[..];
-    assert!(same == (a == b), "stub injective on 3-byte messages");
+fn c08_twin() {
+    let data: [u8; 2] = kani::any();
+    let mut sink = KSink::<2, 0>::new(0, 0);
+    let digest = {
+        let mut w = Sha256Writer::new(&mut sink);
+        let r = w.write_all(&data);
+        std::mem::forget(r);
+        let d = w.into_digest();
+        let mut out = [0u8; 32];
+        out.copy_from_slice(d.as_ref());
+        out
+    };
+    let got: &[u8] = digest.as_ref();
+    assert!(got[0] != got[0], "twin: must be reported FAILED");
 }
+
+#[cfg(test)]
+include!("/verif/replays/_gen/digest.rs");
